@@ -351,6 +351,12 @@ func (x *Exec) callFunction(fr *Frame, st *State, callee *ssa.Function, args []V
 	if !explicitAbstract && x.canInline(fr, callee) {
 		return x.inlineCall(fr, st, callee, args, binds, pos, resT)
 	}
+	if callee.Name() == "init" && callee.Synthetic != "" && fr.fn.Name() == "init" && fr.fn.Synthetic != "" {
+		// initialisers of imported packages run before this one and cannot name its variables
+		// (import cycles are illegal); what they do to their own state is unknown here anyway
+		x.note("imported package initialisers are skipped (they cannot touch this package's variables)")
+		return Value{K: KTuple}
+	}
 	ms := x.fnEffects(callee, 0)
 	if isPureLib(full) {
 		x.note("abstracted (pure library call, result unconstrained): " + full)
